@@ -163,6 +163,14 @@ class SetWrapper(typing.MutableSet[T]):
             for v in arg:
                 self.add(v)
 
+    @classmethod
+    def _from_iterable(cls, it: typing.Iterable[S]) -> typing.Set[S]:
+        # The Set mixin methods (&, -, ^, the reflected operators, &= and ^=)
+        # build their results through this hook. Subclasses are owning
+        # collections whose constructors take their owner as an argument, so
+        # results are plain sets and ownership of the elements is untouched.
+        return set(it)
+
     # begin functions for ABC
     def __contains__(self, v: object) -> bool:
         return v in self._data
